@@ -13,6 +13,7 @@
 #define NOINST __attribute__((no_instrument_function))
 
 static pthread_mutex_t bmx = PTHREAD_MUTEX_INITIALIZER;
+static int idle_fill = -1;          /* bus idlefill <hex byte>|off: byte the read callback delivers whenever nothing else is queued */
 static pthread_cond_t bcond_in = PTHREAD_COND_INITIALIZER;    /* input arrived */
 static pthread_cond_t bcond_idle = PTHREAD_COND_INITIALIZER;  /* receiver found the queue empty */
 
@@ -86,7 +87,7 @@ NOINST void bus_push_raw(const int16_t *items, size_t n) {
 }
 
 NOINST uint8_t bus_read_cb(int *ok) {
-	uint8_t b = 0; long consumed = 0, done = 0;
+	uint8_t b = 0; long consumed = 0, done = 0; int fill = 0;
 	if (hx_role == ROLE_RECEIVER && mon_held_count() > 0) {
 		/* the receiver is back at the read callback: whatever it handled last has returned, nothing may still be held */
 		static atomic_int reported = 0;
@@ -105,8 +106,10 @@ NOINST uint8_t bus_read_cb(int *ok) {
 		*ok = 0;
 		idle_polls++;
 		pthread_cond_broadcast(&bcond_idle);
+		if (idle_fill >= 0) { *ok = 1; b = (uint8_t)idle_fill; fill = 1; }     /* a line that is never silent: idle delimiters / babble between the packets */
 	}
 	__real_pthread_mutex_unlock(&bmx);
+	if (fill) __real_usleep(30);
 	if (log_rx_brackets) {
 		if (done) ev("\"e\":\"rxdone\",\"pkt\":%ld", done);
 		if (consumed) ev("\"e\":\"rxc\",\"pkt\":%ld", consumed);
@@ -234,7 +237,8 @@ NOINST int bus_config_line(int argc, char **argv) {
 		j->len = hexbytes(argv[4], j->payload, sizeof j->payload); if (j->len < 0) return -1;
 		ninject++; return 0;
 	}
-	if (!strcmp(argv[1], "clear")) { ninject = 0; nnodes = 0; ndelayed = 0; memset(delay_ms, 0, sizeof delay_ms); memset(policy, 0, sizeof policy); bus_cap = 64; feat_echo_diff = 0; tabchange_after = -1; tabchange_done = 0; bus_answer = 0; return 0; }
+	if (!strcmp(argv[1], "clear")) { ninject = 0; nnodes = 0; ndelayed = 0; idle_fill = -1; memset(delay_ms, 0, sizeof delay_ms); memset(policy, 0, sizeof policy); bus_cap = 64; feat_echo_diff = 0; tabchange_after = -1; tabchange_done = 0; bus_answer = 0; return 0; }
+	if (!strcmp(argv[1], "idlefill") && argc >= 3) { __real_pthread_mutex_lock(&bmx); idle_fill = !strcmp(argv[2], "off") ? -1 : (int)strtoul(argv[2], NULL, 16); __real_pthread_mutex_unlock(&bmx); return 0; }
 	if (!strcmp(argv[1], "delay") && argc >= 4) { unsigned t = strtoul(argv[2], NULL, 16); if (t >= 128) return -1; delay_ms[t] = atoi(argv[3]); return 0; }
 	if (!strcmp(argv[1], "cap") && argc >= 3) { bus_cap = atoi(argv[2]); return 0; }
 	if (!strcmp(argv[1], "brackets") && argc >= 3) { log_rx_brackets = atoi(argv[2]); return 0; }
